@@ -171,6 +171,17 @@ PROPS["C10"] = dict(
     assumptions=COMMON_ASSUME,
 )
 
+PROPS["C16"] = dict(
+    title="every connection accounted exactly once, truthfully",
+    level="exploration",
+    technique="offline history checker: harness ground truth per connection joined with /api/live samples, the final /api/history and every access-log line (forced rotations): exactly-once, lifecycle grammar, field truthfulness, byte-counter conservation, bounded newest-first history",
+    text="Mixed populations (successful tunnels over http/https/socks5/socks4/reverse with and without early data, denied, upstream refused, client abort before/during/after the handshake, garbage handshake, TLS handshake failure, UDP association) run at up to 150 concurrent connections against proxies with history_size 1000/3/0 and both I/O modes while the log is rotated at random instants. Keyed by the client's source port, every accepted connection must have exactly one access-log line with a distinct id, the listener/target/upstream it used, a state sequence matching the lifecycle grammar with exactly one terminal state (error text iff error), non-decreasing timestamps, byte counters equal to the payload moved (incl. early data); held tunnels must be listed live and none after they ended; the history must be exactly the newest min(history_size, ended) records, newest first; TLS-handshake failures must leave no record.",
+    note="trusted: the collector writes log lines in retirement order (used as the 'end order' for the history check); SOCKS UDP associations are retired by their idle timer, which the run keeps at 1 s",
+    design_ref="DESIGN.md 3 C16",
+    steps=[e2e("c16")],
+    assumptions=COMMON_ASSUME,
+)
+
 NOT_YET = {}
 
 
